@@ -33,6 +33,10 @@ def gen_family(seed, fam):
     if r.random() < 0.5:
         pair = r.choice(corpus.FEEDER_PAIRS)
         chosen.extend(pair)
+    if r.random() < 0.15:
+        for n in r.choice(corpus.VARIANT_PAIRS):
+            if n not in chosen:
+                chosen.append(n)
     nsrc = r.randrange(1, 5)
     while len(chosen) < nsrc:
         n = r.choice(pool_src)[0]
